@@ -125,6 +125,20 @@ def source_of(e, use, binds, fn, assigns):
                 inner = it.args[0] if it.args else it
                 if isinstance(inner, ast.Starred):
                     inner = inner.value
+            # a local that names the population, possibly chosen by an if/else (`unmatched = (Remove(..) for ..)` in one arm,
+            # `(Insert(..) for ..)` in the other): every construction any of its bindings holds
+            if isinstance(inner, ast.Name) and getattr(assigns, "all", {}).get(inner.id):
+                found = []
+                for val in assigns.all[inner.id]:
+                    for n in ast.walk(val):
+                        if isinstance(n, ast.Call) and isinstance(n.func, ast.Name) and n.func.id in CONST_EDITS:
+                            s = const_source(n, n, binds, fn)
+                            if s is not None:
+                                s.selection = sel
+                                s.guard = tuple(guard_of(use, fn))
+                                found.append(s)
+                if found:
+                    return found
             for n in ast.walk(inner):
                 if isinstance(n, ast.Call) and isinstance(n.func, ast.Name) and n.func.id in CONST_EDITS:
                     s = const_source(n, use, binds, fn)
@@ -159,10 +173,14 @@ def source_of(e, use, binds, fn, assigns):
 def extract(fn, kind):
     """Sources used by a method.  kind in {'bounds','tighten','edits','complete'}."""
     binds = loop_bindings(fn)
-    assigns = {}
+    class _Assigns(dict):
+        pass
+    assigns = _Assigns()
+    assigns.all = {}
     for n in walk_no_nested(fn):
         if isinstance(n, ast.Assign) and len(n.targets) == 1 and isinstance(n.targets[0], ast.Name):
             assigns.setdefault(n.targets[0].id, n.value)
+            assigns.all.setdefault(n.targets[0].id, []).append(n.value)
     out = []
     meth = {"bounds": "bounds", "tighten": "tighten_bounds", "complete": "is_complete"}.get(kind)
     for n in walk_no_nested(fn):
@@ -184,13 +202,16 @@ def extract(fn, kind):
             if inlambda:
                 continue
             s = source_of(v, n, binds, fn, assigns)
-            if s is not None:
+            if isinstance(s, list):
+                out.extend(s)
+            elif s is not None:
                 out.append(s)
         if kind == "bounds" and isinstance(n, ast.Call) and call_name(n) == "sum" and n.args:
             # sum(e.bounds() for e in self._sub_edits) is covered by the .bounds() call inside
             pass
         if kind == "edits" and isinstance(n, ast.Yield) and n.value is not None:
-            out.append(source_of(n.value, n, binds, fn, assigns))
+            s_ = source_of(n.value, n, binds, fn, assigns)
+            out.extend(s_ if isinstance(s_, list) else [s_])
         if kind == "edits" and isinstance(n, ast.YieldFrom):
             v = n.value
             if isinstance(v, ast.Call) and call_name(v) in ("iter", "list", "reversed") and v.args:
